@@ -23,14 +23,19 @@ def run(ck):
     ck.cov["exhaustive"] = True
     cs = vf.read_ndjson(cases)
     ck.sample({"thread_program": [c for c in cs if c["interp"] == "linear" and c["layout"] == "hilbert"][0]})
+    # the library is header-only: whether its lookups are reentrant must not depend on the user's build flags.  Besides the
+    # usual -pthread builds, the same programs are built WITHOUT -pthread (no _REENTRANT; glibc >= 2.34 runs std::thread
+    # without it), under ThreadSanitizer and at -O2 -DNDEBUG.
     res = ck.build_many([{"name": "h_threads", "sources": "h_threads.cpp", "flavour": "tsan", "libs": ["-pthread"]},
-                         {"name": "h_threads", "sources": "h_threads.cpp", "flavour": "asan", "libs": ["-pthread"]}])
+                         {"name": "h_threads", "sources": "h_threads.cpp", "flavour": "asan", "libs": ["-pthread"]},
+                         {"name": "h_threads_nopthread", "sources": "h_threads.cpp", "flavour": "tsan", "libs": []},
+                         {"name": "h_threads_nopthread", "sources": "h_threads.cpp", "flavour": "rel", "libs": []}])
     for sp, b, log in res:
-        fl = sp["flavour"]
+        fl = sp["flavour"] + ("-nopthread" if not sp["libs"] else "")
         if not b:
             ck.compile_violation("h_threads/" + fl, log)
             continue
-        stride = (8 if ck.quick else 1) * 16
+        stride = (8 if ck.quick else 1) * 16 * (4 if not sp["libs"] else 1)
         cmds = [[b, "replay", cases, str(stride), str(o)] for o in range(16)]
         for rc, out, err in ck.run_many(cmds, timeout=1500):
             s = ck.harness_output("threads-replay-" + fl, rc, out, err)
@@ -43,4 +48,5 @@ def run(ck):
             s = ck.harness_output("threads-stress-" + fl, rc, out, err)
             ck.cov["impl_checks"] += s.get("checks", 0)
         ck.cov["stress_thread_counts"] = ts
+    ck.cov["build_configurations"] = ["-fsanitize=thread -pthread", "ASan+UBSan -pthread", "-fsanitize=thread without -pthread", "-O2 -DNDEBUG without -pthread"]
     ck.assume("absence of hidden shared state is monitored by ThreadSanitizer on the executions performed, not proved; the specification decides schedules given that premise")
